@@ -267,6 +267,8 @@ pub fn cases(tier: Tier, seed: u64) -> Vec<Case> {
         ("conv-dense", Shape::Triple(1, 2, 2), vec![L::Conv(2, (2, 2), (1, 1), (0, 0), (1, 1), Linear), L::Dense(2, Linear, true)], 2),
         ("feedback-dense", Shape::Single(2), vec![L::Feedback(vec![L::Dense(2, Linear, true)], 2, false, false, Acc::Mean), L::Dense(1, Linear, true)], 1),
         ("conv-pool-dense", Shape::Triple(1, 2, 2), vec![L::Conv(1, (2, 2), (1, 1), (1, 1), (1, 1), Linear), L::Pool((1, 1), (1, 1)), L::Dense(1, Linear, true)], 1),
+        ("feedback-mixed-bias-dense", Shape::Single(2), vec![L::Feedback(vec![L::Dense(3, Linear, false), L::Dense(2, Linear, true)], 1, false, false, Acc::Mean), L::Dense(1, Linear, true)], 1),
+        ("feedback-mixed-bias2-dense", Shape::Single(2), vec![L::Feedback(vec![L::Dense(2, Linear, true), L::Dense(2, Linear, false)], 2, false, false, Acc::Mean), L::Dense(1, Linear, false)], 1),
         ("deconv-dense-dense", Shape::Triple(1, 1, 2), vec![L::Deconv(1, (1, 2), (1, 1), (0, 0), Linear), L::Dense(2, Linear, true), L::Dense(1, Linear, false)], 1),
     ];
     let mut triples: Vec<(usize, usize, usize)> = Vec::new();
